@@ -334,7 +334,7 @@ theorem mechanism_pages_partial (h : StrictTotal (KOrd.lt (κ := κ))) (srcs : L
   rw [segmentation_independent_partial h _ hs]
   have hb : (BSpec.composite srcs size after : BSpec φ κ).safe = true := by
     simp only [Agg.safe, Bool.and_eq_true] at hs; exact hs.1
-  simp only [Spec.agg, BSpec.ideal_of_safe hb]
+  simp only [Spec.agg, rawBuckets_ideal hb]
   rfl
 
 /-- **C30 for the mechanism (partial: safe request, distinct source names)** — the pages obtained
